@@ -16,10 +16,12 @@ PLAN = {
     "quick": [
         ("c3x1", 2, "line", 1), ("c22", 2, "line", 1), ("c3", 3, "line", 1),
         ("x3x1", 2, "line", 1), ("x22", 2, "line", 1), ("x3", 16, "line", 1),
-        ("c3p", 2, "line", 1), ("x3p", 2, "line", 1),
+        ("c3p", 2, "line", 1), ("x3p", 2, "line", 1), ("c3nt", 2, "line", 1),
         ("c8", 1, "line", 0), ("c8", 2, "line", 0), ("x8", 2, "line", 0),
         ("c3", 2, "instruction", 1), ("x3", 2, "instruction", 1),
         ("c3x1", 1, "line", 1),
+        # scale (70 000 rows; 1 296 sub-cubes): the default schedule only (bound -1)
+        ("x3big", 2, "line", -1), ("c3big", 2, "line", -1), ("x1300", 2, "line", -1), ("c1300", 3, "line", -1),
     ],
     "thorough": [
         (h, w, "line", 1) for h in ("c3x1", "c22", "c2x2", "c3", "x3x1", "x22", "x2x2", "x3") for w in (1, 2, 3, 4, 16)
@@ -37,6 +39,8 @@ PLAN = {
         (h, 2, "line", 2) for h in ("c3", "c2x2", "x3", "x2x2")
     ] + [
         ("c3", 3, "line", 2), ("x3", 3, "line", 2),
+    ] + [
+        ("x3big", 2, "line", 0), ("c3big", 2, "line", 0), ("x1300", 2, "line", -1), ("c1300", 3, "line", -1), ("x1300", 16, "line", -1),
     ],
 }
 SHARDS = {"quick": 8, "thorough": 32}
